@@ -402,11 +402,13 @@ def run_property(prop, tier, jobs, only, seed, timeout_override=0):
             extra_cex.append(entry)
         elif verdict == "cex":
             log(f"  counterexample in {h}: {reason}")
-            hn, test_src = playback_for(r["crate"], r["features"], h, per_h_timeout, mem_gb)
+            # trace generation for the playback is much slower than the verdict itself
+            hn, test_src = playback_for(r["crate"], r["features"], h, max(3 * per_h_timeout, 2700), mem_gb)
             if not test_src:
                 entry["verdict"] = "inconclusive"
-                entry["reason"] = "solver reported a failure but no concrete playback could be produced: " + reason
+                entry["reason"] = "solver reported a failure but no concrete playback could be produced (trace generation timed out?): " + reason
                 inconclusive.append(entry)
+                log(f"  INCONCLUSIVE {h}: {entry['reason']}")
                 continue
             repro, outs = native_replay(r["crate"], r["features"], h, test_src)
             entry["native_replay"] = {"dev_reproduced": repro[0], "release_reproduced": repro[1]}
@@ -414,6 +416,7 @@ def run_property(prop, tier, jobs, only, seed, timeout_override=0):
                 entry["verdict"] = "inconclusive"
                 entry["reason"] = "counterexample does NOT reproduce natively (encoding or stub is wrong): " + reason
                 inconclusive.append(entry)
+                log(f"  INCONCLUSIVE {h}: {entry['reason']}")
                 log(outs[0][-1500:])
                 continue
             path = write_replay_file(prop, r["crate"], r["features"], h, test_src, reason)
